@@ -92,6 +92,19 @@ class Ctx:
         # products abstracted: unsat here implies truly infeasible; anything else is kept
         return s.check() != z3.unsat
 
+    def feasible_strict(self, pc):
+        """Feasibility that is always decided by the solver (used to enumerate the values of a symbolic index)."""
+        from .solve import abstract_mul
+
+        s = z3.Solver()
+        s.set("timeout", 2000)
+        cache = self._abs_cache
+        for f in self.facts:
+            s.add(abstract_mul(f, cache))
+        for p in pc:
+            s.add(abstract_mul(p, cache))
+        return s.check() != z3.unsat
+
     def touch(self, fref):
         self.touched[fref.key] = fref.info()
 
@@ -905,6 +918,16 @@ class Exec:
                 out.append((s, self.getitem(vals[0], vals[1], s)))
             except PathDead:
                 pass
+            except NeedConcreteInt as e:
+                s.tmp.append((vals[0], vals[1]))
+                for s2 in self.concretize_int(s, e.term):
+                    v0, v1 = s2.tmp.pop()
+                    # re-evaluate with the constant substituted in the index
+                    v1 = subst_index(v1, e.term, s2.tmp.pop())
+                    try:
+                        out.append((s2, self.getitem(v0, v1, s2)))
+                    except PathDead:
+                        pass
             except self.lib.NeedConcreteMask as e:
                 # fork on every symbolic entry of the mask; on each path the entries are written back as the
                 # constants they equal there, then the selection has a concrete shape
@@ -915,6 +938,27 @@ class Exec:
                         out.append((s2, self.getitem(v0, v1, s2)))
                     except PathDead:
                         pass
+        return out
+
+    def concretize_int(self, st, term, lo=-8, hi=64):
+        """Fork over the values of a symbolic integer (bounded search window; values outside are an obligation)."""
+        out = []
+        cur = st
+        vals = []
+        # candidate values: those the path condition allows
+        for v in range(lo, hi):
+            if not self.ctx.feasible_strict(cur.pc + [term == v]):
+                continue
+            vals.append(v)
+        self.ctx.cur_state = st
+        self.ctx.obligation("symbolic-index-within-search-window", z3.Or(*[term == v for v in vals]) if vals else False)
+        for i, v in enumerate(vals):
+            s2 = st if i == len(vals) - 1 else st.clone()
+            s2.pc.append(term == v)
+            s2.tmp.append(v)
+            # order: value below the held (obj, idx) pair
+            s2.tmp[-1], s2.tmp[-2] = s2.tmp[-2], s2.tmp[-1]
+            out.append(s2)
         return out
 
     def concretize_mask(self, st, mask):
@@ -976,7 +1020,10 @@ class Exec:
                 # symbolic index into a concrete list: ITE chain + bounds obligation
                 n = len(v)
                 self.ctx.obligation("no-raise:IndexError", z3.And(idx >= -n, idx < n))
-                return self.select_chain(v, idx)
+                try:
+                    return self.select_chain(v, idx)
+                except Unsupported:
+                    raise NeedConcreteInt(idx)
             raise Unsupported("list index %r" % (idx,))
         if isinstance(v, dict):
             if idx not in v:
@@ -1928,6 +1975,22 @@ def merge_states(ex, c, a, b, base):
     return st
 
 
+def subst_index(idx, term, val):
+    if isinstance(idx, tuple):
+        return tuple(subst_index(i, term, val) for i in idx)
+    if isinstance(idx, SliceVal):
+        def f(x):
+            if x is None or not isz(x):
+                return x
+            c = V.conc(z3.substitute(x, (term, z3.IntVal(val))))
+            return c if c is not None else z3.substitute(x, (term, z3.IntVal(val)))
+        return SliceVal(f(idx.lo), f(idx.hi), f(idx.step))
+    if isz(idx):
+        c = V.conc(z3.substitute(idx, (term, z3.IntVal(val))))
+        return c if c is not None else idx
+    return idx
+
+
 def merge_states_general(ex, a, b):
     """Union of two states that share a path-condition prefix: the suffixes ca / cb become one disjunction,
     values are ite(ca, value in a, value in b)."""
@@ -1957,9 +2020,19 @@ class AttrMissing(Exception):
         Exception.__init__(self, "no attribute %s on %r" % (name, obj))
 
 
+class NeedConcreteInt(Exception):
+    """A symbolic integer is needed as a concrete value (slice bound): the executor forks over its range."""
+
+    def __init__(self, term):
+        self.term = term
+
+
 class SliceVal:
     def __init__(self, lo, hi, step):
         self.lo, self.hi, self.step = lo, hi, step
+
+    def clone(self, memo):
+        return SliceVal(self.lo, self.hi, self.step)
 
     def to_slice(self):
         def c(x):
@@ -1967,6 +2040,8 @@ class SliceVal:
                 return None
             cx = V.conc(x)
             if not isinstance(cx, int):
+                if isz(x) and z3.is_int(x):
+                    raise NeedConcreteInt(x)
                 raise Unsupported("symbolic slice bound")
             return cx
 
